@@ -226,13 +226,17 @@ def check_sdp(ml, kind, w, tol):
     want = 'NonPSDError'
   elif any(abs(float(x)) < t for x in w):
     want = False
+  elif any(abs(float(x)) == t for x in w):
+    # an eigenvalue exactly AT the tolerance: the documented semantics ("smaller than tol ... considered zero") leaves
+    # the boundary open, except that an exactly zero eigenvalue is never definite (C20: singular priors are rejected)
+    want = False if any(float(x) == 0 for x in w) else 'either'
   else:
     want = True
   if what == 'raise':
     got = 'NonPSDError' if isinstance(val, NonPSDError) else ename(val)
   else:
     got = bool(val) if isinstance(val, (bool, np.bool_)) else val
-  if got is want or (isinstance(want, str) and got == want):
+  if got is want or (isinstance(want, str) and got == want) or (want == 'either' and got in (True, False)):
     return None
   return _v('sign-test-semantics', F_SDP, '%s, expected %s' % (kind, want), 'got %r, expected %r (tol %r)' % (got, want, t), inp)
 
